@@ -110,6 +110,9 @@ func (p *prover) atomKey(v ssa.Value) string {
 
 func (p *prover) lenKey(x ssa.Value) string {
 	x = strip(x)
+	if init := freshFieldInit(p.fn, x); init != nil {
+		x = strip(init)
+	}
 	k := "len(" + p.w.termKey(x) + ")"
 	if _, ok := p.atoms[k]; !ok {
 		p.atoms[k] = x
@@ -1111,4 +1114,81 @@ func (w *World) pairedCount(ref string) (string, bool) {
 		}
 	}
 	return sib, n > 0 && sib != ""
+}
+
+// freshFieldInit: v is a load of field f of an object allocated in fn that is still private to fn at the load (the
+// object is only field-addressed and returned; never passed, stored or captured), the function stores to that field
+// exactly once, and that store dominates the load: the load observes the stored value, which is returned.
+func freshFieldInit(fn *ssa.Function, v ssa.Value) ssa.Value {
+	ld, ok := v.(*ssa.UnOp)
+	if !ok || ld.Op != token.MUL {
+		return nil
+	}
+	fa, ok := ld.X.(*ssa.FieldAddr)
+	if !ok {
+		return nil
+	}
+	al, ok := fa.X.(*ssa.Alloc)
+	if !ok || al.Parent() != fn {
+		return nil
+	}
+	var stores []*ssa.Store
+	for _, r := range *al.Referrers() {
+		switch y := r.(type) {
+		case *ssa.FieldAddr:
+			if y.Field != fa.Field {
+				continue
+			}
+			for _, rr := range *y.Referrers() {
+				switch z := rr.(type) {
+				case *ssa.Store:
+					if z.Addr == ssa.Value(y) {
+						stores = append(stores, z)
+					} else {
+						return nil
+					}
+				case *ssa.UnOp:
+				case *ssa.DebugRef:
+				default:
+					return nil // the field's address is handed out
+				}
+			}
+		case *ssa.Return, *ssa.DebugRef:
+		default:
+			return nil // passed to a call, stored, captured, copied as a whole
+		}
+	}
+	// the store the load must observe: it dominates the load and no other store to the field can follow it
+	var st *ssa.Store
+	for _, cand := range stores {
+		last := true
+		for _, o := range stores {
+			if o != cand && canReach(at(cand), nil, isInstr(o), nil) {
+				last = false
+			}
+		}
+		if last {
+			if st != nil {
+				return nil
+			}
+			st = cand
+		}
+	}
+	if st == nil {
+		return nil
+	}
+	if st.Block() == ld.Block() {
+		for _, in := range st.Block().Instrs {
+			if in == ssa.Instruction(st) {
+				return st.Val
+			}
+			if in == ssa.Instruction(ld) {
+				return nil
+			}
+		}
+	}
+	if st.Block().Dominates(ld.Block()) {
+		return st.Val
+	}
+	return nil
 }
